@@ -80,6 +80,12 @@ func (p *c15Provider) GetTxnOperations(t *txn.SidetreeTxn) ([]*operation.Anchore
 	if err == nil && len(ops) > 0 {
 		p.store.poison = ops[len(ops)-1].UniqueSuffix
 	}
+	// whatever references the provider's operations already carry, the processor stamps the transaction's
+	if err == nil && (t.TransactionNumber+t.TransactionTime)%2 == 0 {
+		for _, o := range ops {
+			o.CanonicalReference, o.EquivalentReferences = "stale-canonical", []string{"stale-equivalent"}
+		}
+	}
 	if err == nil && sp != nil && sp.dup && len(ops) > 0 {
 		c := *ops[0]
 		ops = append(ops, &c, ops[len(ops)-1])
@@ -131,6 +137,14 @@ func runC15(c *ctx) error {
 			sp := &txSpec{putOK: true, delOK: true, nsOK: true, verOK: true}
 			sp.t = txn.SidetreeTxn{TransactionTime: uint64(100 + 10*k + e.rng.Intn(5)), TransactionNumber: uint64(k), Namespace: "did:sidetree",
 				ProtocolVersion: uint64(e.rng.Intn(5)), CanonicalReference: fmt.Sprintf("canon%d-%d", i, k), EquivalentReferences: []string{fmt.Sprintf("eq%da", k), fmt.Sprintf("eq%db", k)}}
+			// transactions of ledgers that do not name a canonical reference, or name no reference at all
+			switch e.rng.Intn(6) {
+			case 0:
+				sp.t.CanonicalReference = ""
+			case 1:
+				sp.t.CanonicalReference, sp.t.EquivalentReferences = "", nil
+			}
+			r.Count("transaction_references", fmt.Sprintf("canonical=%v equivalent=%d", sp.t.CanonicalReference != "", len(sp.t.EquivalentReferences)))
 			var ops []world.ClientOp
 			for len(ops) == 0 {
 				for _, o := range e.genBatch(4 + e.rng.Intn(8)) {
